@@ -60,6 +60,11 @@ def build_items(tier: str, seed: int):
                 for t in _filters(model, backend, tier, rng):
                     items.append({"name": f"h{len(items)}", "family": f"host:{base}", "model": model, "base": base, "term": t,
                                   "backends": [backend]})
+    for backend in ("sa_select", "sa_query"):          # second schema: same-named relationships on different models
+        for base in ormbases.available(backend, "Ticket"):
+            for _, t in relgen.ticket_atoms():
+                items.append({"name": f"h{len(items)}", "family": f"host:{base}", "model": "Ticket", "base": base, "term": t,
+                              "backends": [backend]})
     info = {"hosts": {str(k): v for k, v in ormbases.BASES.items()}, "programs": len(items),
             "per_backend": {b: sum(1 for it in items if it["backends"][0] == b) for b in BACKENDS}}
     return items, info
